@@ -1,14 +1,14 @@
 from .common import COMMON_TB
 
 CFG = dict(
-    coq=["Properties/C07.v", "Properties/C07Readers.v"],
-    areas=["purity", "delta", "lzmaenc", "lzmadec"],
+    coq=["Properties/C07.v", "Properties/C07Readers.v", "Properties/C07Bcj2.v"],
+    areas=["purity", "delta", "lzmaenc", "lzmadec", "bcj", "bcj2", "c02"],
     level="proof",
     theorems_expected=["C07_lzma1_no_byte_lost", "C07_lzma2_no_byte_lost", "C07_uncompressed_fallback_old_refuted", "C07_uncompressed_fallback_max_refuted", "C07_fill_window_huge_slice_old_refuted", "C07_process_pending_strict_assert_refuted", "C07_lzma_expected_size", "C07_delta_write_partition", "C07_delta_read_partition",
                        "C07_lzma1_zero_read", "C07_lzma2_zero_read", "C07_bcj_reader_zero_read", "C07_xz_reader_zero_read", "C07_lzip_reader_zero_read",
                        "C07_xz_reader_zero_read_refuted", "C07_lzma1_reader_any_sizes", "C07_lzma2_reader_any_sizes", "C07_bcj_reader_any_sizes",
                        "C07_delta_reader_any_chunking", "C07_xz_reader_any_sizes", "C07_xz_reader_matches_whole_file",
-                       "C07_lzip_reader_any_sizes", "C07_lzip_reader_matches_whole_file", "C07_lzip_reader_written_file"],
+                       "C07_lzip_reader_any_sizes", "C07_lzip_reader_matches_whole_file", "C07_lzip_reader_written_file", "C07_bcj2_reader_any_sizes", "C07_bcj2_reader_zero_read"],
     rule="purity: cases = (option vector, writer kind LZMAWriter header/marker/declared-size variants | LZIPWriter | LZMA2Writer with/without "
          "chunk_size | XZWriter, optional preset dictionary, data from 10 compressibility classes plus multi-100-KiB cases that fill and move the "
          "encoder window, TWO call histories over the same data: write partitions from 6 classes with empty writes and flushes); the real writer "
